@@ -3,7 +3,7 @@ CONSTANTS
   Streams = {1}
   SameAddr = FALSE
   Writers = {1}
-  Q = 2
+  Q = 100
   InitHead = 9
   MaxR = 11
   Froms = {7}
